@@ -384,7 +384,6 @@ def prov_leaves(p):
 def value_rules(rep, an, fi, s, v, guards, where):
     f = an.facts(v, guards) or Facts()
     cons = "%s: %s" % (fi.qualname, _short(v))
-    import os
     for a in f.assumed:
         rep.assume(a)
     flat = flat_guards(guards)
